@@ -36,6 +36,8 @@ type amp struct {
 	// Pad > 0: that many comment lines (padLine) are appended: a text of several KB whose table is that of the
 	// short text (what is left unread in a buffer after an early error is then a sizeable piece of text)
 	Pad int `json:"pad,omitempty"`
+	// Pre > 0: that many comment lines are put IN FRONT of the text (an error then sits in a late chunk)
+	Pre int `json:"pre,omitempty"`
 }
 
 const padLine = "# pad pad pad pad pad pad pad pad pad pad pad pad pad pad pad pad"
@@ -70,6 +72,13 @@ func (a *amp) expandLines(s string) string {
 			n = 4096
 		}
 		s += strings.Repeat("\n"+padLine, n)
+	}
+	if a.Pre > 0 {
+		n := a.Pre
+		if n > 4096 {
+			n = 4096
+		}
+		s = strings.Repeat(padLine+"\n", n) + s
 	}
 	return s
 }
